@@ -151,6 +151,11 @@ def rules(rep):
 
     # ---- Q2: start of a pack --------------------------------------------------------------------
     st = [e for e in f.all_elems() if e.is_assign and e.op == "=" and sh(norm(e.kid(0))) == "packedopts" and sh(norm(e.kid(1))) == "&argv[optind][1]"]
+    if not st:
+        # the statement the clause is about is not there in a form these rules read (e.g. the word is held in a local): that is
+        # "cannot analyse", not "wrong"
+        rep.defer_broken("Q2: no `packedopts = &argv[optind][1]` found in getopt")
+        return rep
     ok = len(st) == 1
     if ok:
         a = atoms_at(f, st[0])
